@@ -10,6 +10,9 @@
 //   c06_race     the detector under CONCURRENT callers: T OS threads released together draw the same fresh index
 //                from one generator (real `Generator::generate` -> `UsedSet::use_index`), R rounds; exactly one
 //                draw per round may be accepted
+//   c06_xfault   the REAL `gen_and_distribute` on every follower shard of 2-5 shard worlds with a scripted leader per
+//                helper (fault-free / seed channels closed empty / record delivered to a subset): outcomes per shard,
+//                number of distinct cross-shard streams among a helper's Ok shards, neighbour consistency (b19)
 // (c06_pack lives in hooks/context.rs: PrssIndex128 is visible only inside crate::protocol.)
 use std::collections::HashSet;
 
